@@ -243,8 +243,8 @@ func init() {
 							nw.ex.Fail("wrong-reply", "call returned %v", val)
 						}
 						// (when the peer node stops, a message may be acknowledged - it was placed in the mailbox - and
-					// never handled, because its receiver is shut down first: only a cut keeps the receiver alive)
-					if what == "send-important" && err == nil && len(got) != 1 && fault == "cut" {
+						// never handled, because its receiver is shut down first: only a cut keeps the receiver alive)
+						if what == "send-important" && err == nil && len(got) != 1 && fault == "cut" {
 							nw.ex.Fail("important-ok-not-delivered", "SendImportant returned nil but the receiver handled %v", got)
 						}
 						nw.Out("done=%v err=%v val=%v got=%v", done, err, val, got)
@@ -313,15 +313,15 @@ func init() {
 					errs["monitor-pid"] = p.MonitorPID(old.pid)
 					errs["link-alias"] = p.LinkAlias(old.alias)
 					errs["exit-pid"] = p.SendExit(old.pid, errX)
-				errs["send-important-pid"] = p.SendImportant(old.pid, "important-to-old-pid")
-				errs["send-important-alias"] = p.SendImportant(old.alias, "important-to-old-alias")
-				errs["send-priority-pid"] = p.SendWithPriority(old.pid, "priority-to-old-pid", gen.MessagePriorityHigh)
-				_, errs["call-alias"] = p.CallWithTimeout(old.alias, "call-old-alias", 1)
-				_, errs["call-important-pid"] = p.CallImportant(old.pid, "call-important-old")
-				errs["monitor-alias"] = p.MonitorAlias(old.alias)
-				p.SetImportantDelivery(true)
-				errs["send-pid-important-flag"] = p.Send(old.pid, "flagged-important-to-old-pid")
-				p.SetImportantDelivery(false)
+					errs["send-important-pid"] = p.SendImportant(old.pid, "important-to-old-pid")
+					errs["send-important-alias"] = p.SendImportant(old.alias, "important-to-old-alias")
+					errs["send-priority-pid"] = p.SendWithPriority(old.pid, "priority-to-old-pid", gen.MessagePriorityHigh)
+					_, errs["call-alias"] = p.CallWithTimeout(old.alias, "call-old-alias", 1)
+					_, errs["call-important-pid"] = p.CallImportant(old.pid, "call-important-old")
+					errs["monitor-alias"] = p.MonitorAlias(old.alias)
+					p.SetImportantDelivery(true)
+					errs["send-pid-important-flag"] = p.Send(old.pid, "flagged-important-to-old-pid")
+					p.SetImportantDelivery(false)
 					errs["response-old-ref"] = p.SendResponse(lateFrom, lateRef, "late-reply-for-old-incarnation")
 					errs["response-error-old-ref"] = p.SendResponseError(lateFrom, lateRef, errX)
 					return nil
